@@ -619,4 +619,154 @@ theorem update_reach (f : List ℝ → ℝ) (w : W ℝ) (params : PList ℝ) : R
   · exact update3_reach f w params
   · exact update5_reach f w params
 
+
+/-! ### the forwarded calls keep the invariant -/
+
+theorem setValue_cases (p p' : Param ℝ) (v : ℝ) (h : p.setValue v = .ok p') :
+    SameSkel p' p ∧ (p' = p ∨ (p'.value = v ∧ p.violates v = false)) := by
+  unfold Param.setValue at h
+  split at h
+  · split at h
+    · cases h
+    · rename_i hv
+      injection h with h; subst h
+      exact ⟨⟨rfl, rfl, rfl⟩, Or.inr ⟨rfl, by simpa using hv⟩⟩
+  · injection h with h; subst h
+    exact ⟨SameSkel.rfl' _, Or.inl rfl⟩
+
+theorem feas_of_setValue (p p' : Param ℝ) (v : ℝ) (h : p.setValue v = .ok p') (hp : p.violates p.value = false) :
+    p'.violates p'.value = false := by
+  obtain ⟨a, b⟩ := setValue_cases p p' v h
+  rcases b with b | ⟨b1, b2⟩
+  · rw [b]; exact hp
+  · rw [b1, violates_skel a]; exact b2
+
+/-- `setParameterValue`: the value is checked by `Parameter::setValue` itself -/
+theorem setValueOf_gen' : ∀ (l l' : PList ℝ) (n : Name) (v : ℝ), setValueOf l n v = .ok l' →
+    Skel l' l ∧ (Feas l → Feas l') := by
+  intro l
+  induction l with
+  | nil => intro l' n v h; simp [setValueOf] at h
+  | cons p r ih =>
+    intro l' n v h
+    unfold setValueOf at h
+    split at h
+    · split at h
+      · rename_i p' hp'
+        injection h with h; subst h
+        refine ⟨List.Forall₂.cons (setValue_cases p p' v hp').1 (Skel.refl r), ?_⟩
+        intro hf x hx
+        rcases List.mem_cons.mp hx with rfl | hx
+        · exact feas_of_setValue p x v hp' (hf p (List.mem_cons_self ..))
+        · exact hf x (List.mem_cons_of_mem _ hx)
+      · cases h
+    · split at h
+      · rename_i r' hr'
+        injection h with h; subst h
+        obtain ⟨a, b⟩ := ih r' n v hr'
+        refine ⟨List.Forall₂.cons (SameSkel.rfl' p) a, ?_⟩
+        intro hf x hx
+        rcases List.mem_cons.mp hx with rfl | hx
+        · exact hf x (List.mem_cons_self ..)
+        · exact b (fun y hy => hf y (List.mem_cons_of_mem _ hy)) x hx
+      · cases h
+
+theorem setLoop_gen (pl : PList ℝ) : ∀ (own own' : PList ℝ), setLoop own pl = .ok own' →
+    Skel own' own ∧ (Feas own → Feas own') := by
+  induction pl with
+  | nil => intro own own' h; simp [setLoop] at h; subst h; exact ⟨Skel.refl _, id⟩
+  | cons q qs ih =>
+    intro own own' h
+    unfold setLoop at h
+    split at h
+    · split at h
+      · rename_i own1 hs1
+        obtain ⟨a, b⟩ := setValueOf_gen' own own1 q.name q.value hs1
+        obtain ⟨c, d⟩ := ih _ _ h
+        exact ⟨c.trans a, fun hf => d (b hf)⟩
+      · cases h
+    · exact ih _ _ h
+
+theorem allSet_gen (pl : PList ℝ) : ∀ (own own' : PList ℝ), allSet own pl = .ok own' →
+    Skel own' own ∧ (Feas own → Feas own') := by
+  intro own
+  induction own with
+  | nil => intro own' h; simp [allSet] at h; subst h; exact ⟨Skel.refl _, id⟩
+  | cons p r ih =>
+    intro own' h
+    unfold allSet at h
+    split at h
+    · cases h
+    · split at h
+      · cases h
+      · rename_i q _ p' hp'
+        split at h
+        · cases h
+        · rename_i r' hr'
+          injection h with h; subst h
+          obtain ⟨a, b⟩ := ih r' hr'
+          refine ⟨List.Forall₂.cons (setValue_cases p p' _ hp').1 a, ?_⟩
+          intro hf x hx
+          rcases List.mem_cons.mp hx with rfl | hx
+          · exact feas_of_setValue p x _ hp' (hf p (List.mem_cons_self ..))
+          · exact b (fun y hy => hf y (List.mem_cons_of_mem _ hy)) x hx
+
+theorem Inv.replace {f : List ℝ → ℝ} {ref : PList ℝ} {fn : Fn ℝ} (h : Inv f ref fn) (own : PList ℝ)
+    (hs : Skel own fn.params) (hf : Feas fn.params → Feas own) :
+    Inv f ref (({ fn with params := own } : Fn ℝ).fire f) :=
+  Inv.fire (hs.trans h.skel) (hf h.feas) h.log
+
+theorem Inv.forward {f : List ℝ → ℝ} {ref : PList ℝ} {fn : Fn ℝ} (h : Inv f ref fn) (e : Entry ℝ) :
+    Inv f ref (fn.forward f e).1 ∧ (fn.forward f e).1.kind = fn.kind := by
+  cases e with
+  | setParameters pl => exact h.setParameters pl
+  | f pl => exact h.setParameters pl
+  | matchPV pl => exact h.setParameters pl
+  | setVals pl =>
+    simp only [Fn.forward, Fn.setParametersValues]
+    split
+    · exact ⟨h, rfl⟩
+    · split
+      · exact ⟨h, rfl⟩
+      · rename_i own hs
+        obtain ⟨a, b⟩ := setLoop_gen pl _ _ hs
+        exact ⟨h.replace own a b, rfl⟩
+  | setAll pl =>
+    simp only [Fn.forward, Fn.setAllParametersValues]
+    split
+    · exact ⟨h, rfl⟩
+    · split
+      · exact ⟨h, rfl⟩
+      · rename_i own hs
+        obtain ⟨a, b⟩ := allSet_gen pl _ _ hs
+        exact ⟨h.replace own a b, rfl⟩
+  | setOne n v =>
+    simp only [Fn.forward, Fn.setParameterValue]
+    split
+    · exact ⟨h, rfl⟩
+    · rename_i own hs
+      obtain ⟨a, b⟩ := setValueOf_gen' _ _ n v hs
+      exact ⟨h.replace own a b, rfl⟩
+
+/-- any entry point, returning or raising, keeps the invariant of the wrapped function -/
+theorem Inv.call {f : List ℝ → ℝ} {ref : PList ℝ} {w : W ℝ} (h : Inv f ref w.fn) (e : Entry ℝ) :
+    Inv f ref (w.call f e).1.fn ∧ (w.call f e).1.fn.kind = w.fn.kind := by
+  unfold W.call
+  have hf := h.forward (f := f) e
+  rcases hfw : w.fn.forward f e with ⟨fn1, x, b⟩
+  rw [hfw] at hf
+  cases x with
+  | some x => exact hf
+  | none =>
+    simp only []
+    split
+    · exact hf
+    · rename_i pl _
+      have hr := update_reach f ({ w with fn := fn1 } : W ℝ) pl
+      obtain ⟨a, b'⟩ := hf.1.reach hr
+      exact ⟨a, b'.trans hf.2⟩
+
+theorem Inv.own {f : List ℝ → ℝ} {ref : PList ℝ} {fn : Fn ℝ} (h : Inv f ref fn) (hnd : (names ref).Nodup) (hz : Z ref) :
+    Own fn := ⟨by rw [h.skel.names]; exact hnd, h.skel.Z hz⟩
+
 end Bpp.NumDeriv
